@@ -2,7 +2,8 @@
    Only statements, closed by `exact`, with Print Assumptions beneath each. *)
 From Coq Require Import NArith Bool List.
 From SV.Gen Require Import OptBits.
-From SV.Opts Require Import Spec Proofs.
+From SV.Gen Require Import EntryPoints.
+From SV.Opts Require Import Spec Proofs Entry.
 Open Scope N_scope.
 
 (* every one of the 2^16 Config values is translated into exactly the documented option bits,
@@ -43,3 +44,15 @@ Print Assumptions C18_stock_configs.
 Theorem C18_froze_words_in_range : forall c, fst (froze c) < 2 ^ 9 /\ snd (froze c) < 2 ^ 8.
 Proof. exact froze_words_in_range. Qed.
 Print Assumptions C18_froze_words_in_range.
+
+(* Marshal, MarshalString, MarshalIndent, Unmarshal, UnmarshalString, Valid, ValidString are one-line
+   delegations to the frozen default Config (tables regenerated from api.go on every run) *)
+Theorem C18_entrypoints_delegate : forallb delegation_ok expected_delegations = true.
+Proof. exact entrypoints_delegate. Qed.
+Print Assumptions C18_entrypoints_delegate.
+
+(* every frozenConfig method reaches its codec with the option word of its own side only, and
+   UnmarshalFromString = SetOptions; Decode; CheckTrailings *)
+Theorem C18_frozen_methods_shape : forallb method_ok expected_methods = true /\ sides_ok = true.
+Proof. exact frozen_methods_shape. Qed.
+Print Assumptions C18_frozen_methods_shape.
